@@ -10,3 +10,4 @@ def load_all():
 MODULES += ["util", "errors"]
 MODULES += ["output"]
 MODULES += ["validation"]
+# MODULES += ["json_"]   (json_default contract: work in progress)
